@@ -13,37 +13,10 @@
    the forward (memory) lemmas of DecRefineSafe.v in a position to apply. *)
 From Coq Require Import ZArith List Lia Bool ZifyBool.
 From LZ4V Require Import Gen.Consts Spec.BlockSpec Model.Mem Model.Dec.
+From LZ4V Require Import Model.DecSem.
 From LZ4V Require Import Proofs.DecSafe Proofs.DecRefineBase Proofs.DecRefineSafe Proofs.DecConverse.
 Import ListNotations.
 Local Open Scope Z_scope.
-
-(* output (most recent byte first, history included) of the sequences the input provides *)
-Fixpoint sem (fuel : nat) (rout bs : list Z) : list Z :=
-  match fuel with
-  | O => rout
-  | S f =>
-    match bs with
-    | [] => rout
-    | tok :: r =>
-      match read_len (tok / 16) r with
-      | None => rout
-      | Some (ll, r1) =>
-        let rout1 := rev (firstn (Z.to_nat ll) r1) ++ rout in
-        match skipn (Z.to_nat ll) r1 with
-        | o1 :: o2 :: r3 =>
-          match read_len (tok mod 16) r3 with
-          | None => rout1
-          | Some (ml, r4) =>
-            match apply_seq rout (mkSeq (firstn (Z.to_nat ll) r1) (o1 + 256 * o2) (ml + 4)) with
-            | Some rout2 => sem f rout2 r4
-            | None => rout1
-            end
-          end
-        | _ => rout1
-        end
-      end
-    end
-  end.
 
 Lemma sem_S f rout (bs : list Z) :
   sem (S f) rout bs =
